@@ -78,7 +78,7 @@ def main(cases_fn, replay_fn=None, describe=None):
             labels.append(jsonable(label))
     out = {'cases': n, 'checked': stats.get('checked', 0) + stats.get('raised_ok', 0), 'vacuous': stats.get('vacuous', 0),
            'failures': failures, 'failure_counts': {'%s %s' % k: v for k, v in by_clause.items()},
-           'samples': labels, 'per_function': per_key, 'secs_inner': round(time.time() - t0, 1)}
+           'samples': labels, 'per_function': per_key, 'vacuous_by': stats.get('vacuous_by', {}), 'secs_inner': round(time.time() - t0, 1)}
     if describe:
         out['scope'] = describe
     print(json.dumps({'bounded': out}))
